@@ -21,7 +21,10 @@ def run(tier, seed):
     vlib.build_harness()
     res, out, scen, trace = sc.run_scenarios(tier, seed)
     n_traces, n_events, rej, owned = sc.judge(v, PROP, out, scen, trace, sc.C10_SIGS, sc.C10_CLAUSES)
+    from props import system_common
+    syscov, _ = system_common.run(v, PROP, tier, seed)
     cov = {
+        "system_behaviours": syscov,
         "states": res.distinct, "transitions": res.generated,
         "traces_validated_against_impl": n_traces - rej,
         "evaluations": out.total, "distinct_nontrivial": sum(c for k, c in out.classes.items()),
